@@ -59,7 +59,7 @@ class ShardStats:
         self.excluded_known = {}
         self.best = None                        # (case, message, kind, digest)
         self.first_fail_t = None
-        self.cap = sub.shrink_cap_s if sub.shrink_cap_s is not None else (60.0 if tier == "quick" else 240.0)
+        self.cap = sub.shrink_cap_s if sub.shrink_cap_s is not None else (25.0 if tier == "quick" else 240.0)
         self.t0 = time.time()
 
     def run_case(self, case):
